@@ -304,6 +304,7 @@ def check(run):
             stream_rows(run, arg, name, cases, docs, o)
         else:
             stream_monitor(run, arg, name, cases, docs, o)
+    stream_pages(run, rng, 2000 if thorough else 250, 'flex-pages')
 
 
 def replay(data):
@@ -324,6 +325,12 @@ def replay(data):
     if d.get('stream', '').startswith('grid-place') or d.get('stream', '').startswith('grid-tracks'):
         import p_c12grid
         return p_c12grid.grid_replay(d)
+    if d.get('stream') == 'flex-pages':
+        c = d['case']
+        (st, o), = common.run_impl('impl_c12', 'render_flex_pages', [{'html': pages_html(c)}])
+        bad = judge_pages(c, o) if st == 'ok' else [(st, o)]
+        print('replay:', bad[:5])
+        return 1 if bad else 0
     if d.get('stream', '').startswith('flex-monitor') or d.get('stream') == 'grid-monitor':
         c = d['case']
         gen, html, judge = MON[c['kind']]
@@ -724,3 +731,118 @@ def judge_mon_grid(c, o):
 
 
 MON['grid'] = (gen_mon_grid, mon_grid_html, judge_mon_grid)
+
+
+# ------------------------------------------------------------------------------------------ flex over pages
+# Column and wrapping-row flex containers that continue over 3 or more pages (items made of text lines):
+# conservation and order rules judged in Python.
+
+def gen_pages(rng):
+    col = rng.random() < 0.6
+    n = rng.randint(4, 9)
+    items = []
+    for i in range(n):
+        items.append({'id': i, 'lines': rng.choice([1, 2, 3, 3, 4, 5, 7]),
+                      'order': rng.choice([0, 0, 0, 1, -1]) if rng.random() < 0.3 else 0,
+                      'w': rng.choice([60, 80, 90, 100, 120]), 'pad': rng.choice([0, 0, 0, 2])})
+    total = sum(it['lines'] for it in items) * 10
+    # page height: at least 3 pages, and every page can hold a few lines
+    ph = rng.choice([40, 50, 60, 80])
+    while not col and ph * 2 > total / 1.5 and ph > 40:
+        ph -= 10
+    return {'kind': 'pages', 'col': col, 'items': items, 'ph': ph, 'gap': rng.choice([0, 0, 5, 10]),
+            'before': rng.choice([0, 0, 1, 3]), 'reverse': False}
+
+
+def pages_html(c):
+    st = ['display:flex', 'row-gap:%dpx' % c['gap'], 'column-gap:0', 'align-items:flex-start']
+    st += ['flex-direction:column'] if c['col'] else ['flex-wrap:wrap']
+    out = ['<style>@page{size:200px %dpx;margin:0}body{margin:0;font-family:weasyprint;font-size:10px;line-height:10px}'
+           '</style>' % c['ph']]
+    out.append(''.join('<p style="margin:0">x%d</p>' % k for k in range(c['before'])))
+    out.append('<div id="c" style="%s">' % ';'.join(st))
+    for it in c['items']:
+        s = ['flex:none', 'padding-left:%dpx' % it['pad']]
+        if not c['col']:
+            s.append('width:%dpx' % it['w'])
+        if it['order']:
+            s.append('order:%d' % it['order'])
+        body = '<br>'.join('%s%d' % ('abcdefgh'[it['id'] % 8], k) for k in range(it['lines']))
+        out.append('<div id="i%d" style="%s">%s</div>' % (it['id'], ';'.join(s), body))
+    out.append('</div>')
+    return ''.join(out)
+
+
+def judge_pages(c, pages):
+    bad = []
+    expect = sorted(range(len(c['items'])), key=lambda i: (c['items'][i]['order'], i))
+    rank = {i: k for k, i in enumerate(expect)}
+    seen = {i: [] for i in rank}
+    seq = []
+    frag_pages = [p for p in pages if p['c'] is not None]
+    if len(pages) > 60:
+        bad.append(('page-count-bounded', len(pages)))
+    for pi, p in enumerate(pages):
+        if p['c'] is None:
+            continue
+        ids = [int(r['id'][1:]) for r in p['items']]
+        for r in p['items']:
+            i = int(r['id'][1:])
+            seq.append(i)
+            for text, y, h in r['lines']:
+                seen[i].append(text)
+                if isinstance(y, float) and isinstance(h, float) and y + h > p['page_h'] + EPS and len(r['lines']) > 1:
+                    bad.append(('line-inside-page', (pi, i, text, y + h, p['page_h'])))
+        # order-modified document order on the page
+        if [rank[i] for i in ids] != sorted(rank[i] for i in ids):
+            bad.append(('order-on-page', (pi, ids)))
+        if c['col']:
+            # column: the items of a page are stacked along the main axis, a gap apart at least
+            prev = None
+            for r in p['items']:
+                if r['lines'] and prev is not None and prev['lines']:
+                    bottom = max(y + h for _, y, h in prev['lines'])
+                    top = min(y for _, y, _ in r['lines'])
+                    if top < bottom + c['gap'] - EPS:
+                        bad.append(('items-stacked-with-gap', (pi, prev['id'], r['id'], bottom, top)))
+                prev = r
+    # every line of every item exactly once, in order (conservation over the pages)
+    for i, it in enumerate(c['items']):
+        want = ['%s%d' % ('abcdefgh'[i % 8], k) for k in range(it['lines'])]
+        if seen[i] != want:
+            bad.append(('lines-conserved-in-order', (i, seen[i], want)))
+    # across pages the items come in order (an item split between pages appears on consecutive pages)
+    ranks = [rank[i] for i in seq]
+    if ranks != sorted(ranks):
+        bad.append(('order-across-pages', seq))
+    return bad
+
+
+def stream_pages(run, rng, n, name):
+    cases = [gen_pages(rng) for _ in range(n)]
+    docs = [{'html': pages_html(c)} for c in cases]
+    outs = common.run_impl('impl_c12', 'render_flex_pages', docs, limit=60)
+    clauses, nbad, npages = {}, 0, []
+    for c, d, (st, o) in zip(cases, docs, outs):
+        if st != 'ok':
+            run.fail('flex over pages: render %s: %s' % (st, (o or {}).get('site') if o else None),
+                     {'stream': name, 'case': c, 'html': d['html'], 'outcome': o},
+                     signature='crash:%s' % ((o or {}).get('site'),) if st == 'exc' else 'timeout')
+            continue
+        npages.append(sum(1 for p in o if p['c'] is not None))
+        bad = judge_pages(c, o)
+        for clause, detail in bad[:1]:
+            clauses[clause] = clauses.get(clause, 0) + 1
+            nbad += 1
+            if nbad <= 3:
+                run.fail('flex over pages: clause %s fails: %s' % (clause, detail),
+                         {'stream': name, 'case': c, 'html': d['html'], 'clause': clause, 'detail': detail},
+                         signature='flexpages:%s' % clause)
+    run.count(name, len(cases), [(c['col'], len(c['items']), c['ph'], c['gap'], c['before'], k)
+                                 for c, k in zip(cases, npages)], samples=[docs[0]['html'][:800]])
+    run.stream_info(name, judged_in='python', failing_clauses=clauses,
+                    pages_histogram={k: npages.count(k) for k in sorted(set(npages))},
+                    three_or_more_pages=sum(1 for k in npages if k >= 3),
+                    rule='column / wrapping row flex containers of 4..9 text items (1..7 lines each) on pages of 40..80px: '
+                         'every line of every item exactly once and in order over the pages, order-modified document order '
+                         'on each page and across pages, column items stacked a gap apart, lines inside the page')
